@@ -305,6 +305,7 @@ type sim struct {
 	busy       *half // half inside a lock section (top of busyStack)
 	busyStack  []*half
 	heldShut   bool        // the shutdown goroutine was let go while a lock section was blocked: it may wait for the broker\'s lock
+	polled     bool        // the last quiescence was found by polling goroutine states (a mutex waiter was present): rules of the form "by now X has happened" are not judged at such a point
 	evDrainDue bool        // lazy-listener runs: read the listener in this and the following settles of the step
 	lock       *sync.Mutex // the broker's own lock (log-park runs only)
 	shutPark   *park
